@@ -916,7 +916,22 @@ def get_code(node: ast.AST | Range, source: str) -> str:
 
 
 def literal_value(node: ast.AST) -> bool:
-    if has_side_effect(node, safe_callable_whitelist=constants.BUILTIN_FUNCTIONS):
+    """Find the value of a constant expression.
+
+    Raises:
+        ValueError: If the expression has no value that is known without running the program.
+    """
+    try:
+        return _literal_value(node)
+    except ValueError:
+        raise
+    except Exception as error:
+        # Evaluating the expression fails, e.g. 1 / 0 or len(5)
+        raise ValueError("Cannot find a deterministic value for a node that raises") from error
+
+
+def _literal_value(node: ast.AST) -> bool:
+    if has_side_effect(node, safe_callable_whitelist=constants.LITERAL_CALLABLES):
         raise ValueError("Cannot find a deterministic value for a node with a side effect")
 
     if match_template(
@@ -966,7 +981,7 @@ def literal_value(node: ast.AST) -> bool:
         return getattr(node_value, node.func.attr)(*args)
 
     if isinstance(node, ast.Call):
-        if isinstance(node.func, ast.Name) and node.func.id in constants.BUILTIN_FUNCTIONS:
+        if isinstance(node.func, ast.Name) and node.func.id in constants.LITERAL_CALLABLES:
             args = [literal_value(arg) for arg in node.args]
             return getattr(builtins, node.func.id)(*args)
 
